@@ -822,24 +822,31 @@ static void gen_expr(Node *node) {
     gen_expr(node->rhs);
 
     if (node->lhs->kind == ND_MEMBER && node->lhs->member->is_bitfield) {
-      println("  mov %%rax, %%r8");
-
       // If the lhs is a bitfield, we need to read the current value
-      // from memory and merge it with a new value.
+      // from memory and merge it with a new value. The mask may be
+      // wider than an immediate operand, so it goes through a register.
       Member *mem = node->lhs->member;
+      unsigned long mask = (mem->bit_width == 64) ? -1UL : (1UL << mem->bit_width) - 1;
       println("  mov %%rax, %%rdi");
-      println("  and $%ld, %%rdi", (1L << mem->bit_width) - 1);
+      println("  mov $%ld, %%r9", mask);
+      println("  and %%r9, %%rdi");
       println("  shl $%d, %%rdi", mem->bit_offset);
 
       println("  mov (%%rsp), %%rax");
       load(mem->ty);
 
-      long mask = ((1L << mem->bit_width) - 1) << mem->bit_offset;
-      println("  mov $%ld, %%r9", ~mask);
+      println("  mov $%ld, %%r9", ~(mask << mem->bit_offset));
       println("  and %%r9, %%rax");
       println("  or %%rdi, %%rax");
       store(node->ty);
-      println("  mov %%r8, %%rax");
+
+      // The value of the assignment is the value the bit-field has
+      // after it, not the unconverted right operand.
+      println("  shl $%d, %%rax", 64 - mem->bit_width - mem->bit_offset);
+      if (mem->ty->is_unsigned || mem->ty->kind == TY_BOOL)
+        println("  shr $%d, %%rax", 64 - mem->bit_width);
+      else
+        println("  sar $%d, %%rax", 64 - mem->bit_width);
       return;
     }
 
